@@ -2,6 +2,7 @@ package tlv
 
 import (
 	"bytes"
+	"encoding/asn1"
 	"fmt"
 	"strings"
 
@@ -56,9 +57,12 @@ func (node TlvSimpleNode) stringWithIndent(indent int) string {
 	sb.WriteString(fmt.Sprintf("%02x: %x", node.tag, node.value))
 	if node.tag == 0x06 {
 		// special handling for ASN1 OIDs
-		tmpOid := oid.DecodeAsn1objectId(node.value)
-		tmpOidDesc := oid.OidDesc(tmpOid)
-		sb.WriteString(fmt.Sprintf(" [%s: %s]", tmpOid.String(), tmpOidDesc))
+		// NB must not panic for a malformed OID as this is used to log untrusted data
+		var tmpOid asn1.ObjectIdentifier
+		if rest, err := asn1.Unmarshal(node.Encode(), &tmpOid); err == nil && len(rest) == 0 {
+			tmpOidDesc := oid.OidDesc(tmpOid)
+			sb.WriteString(fmt.Sprintf(" [%s: %s]", tmpOid.String(), tmpOidDesc))
+		}
 	} else if utils.PrintableBytes(node.value) {
 		// special handling for printable bytes
 		sb.WriteString(fmt.Sprintf(" [%s]", string(node.value)))
